@@ -477,6 +477,7 @@ def synthetic_mapdir():
     characters, a missing id, an empty loop id, a gap in the element sequence"""
     if _syn_dir[0] is None:
         dd = tempfile.mkdtemp(prefix='pyx12_synmap_')
+        __import__('atexit').register(lambda: shutil.rmtree(dd, ignore_errors=True))
         for fn in ('dataele.xml', 'codes.xml', 'maps.xml', 'comp_test.xml'):
             shutil.copy(os.path.join(mapser.MAPDIR, fn), os.path.join(dd, fn))
         with open(os.path.join(dd, 'syn.xml'), 'w') as f:
